@@ -2,6 +2,7 @@ package zipfs
 
 import (
 	"archive/zip"
+	"errors"
 	"io"
 	"os"
 	"path/filepath"
@@ -72,7 +73,14 @@ func (f *File) ReadAt(p []byte, off int64) (n int, err error) {
 	if f.closed {
 		return 0, afero.ErrFileClosed
 	}
+	if off < 0 {
+		return 0, &os.PathError{Op: "readat", Path: f.Name(), Err: errors.New("negative offset")}
+	}
 	err = f.fillBuffer(off + int64(len(p)))
+	if off > int64(len(f.buf)) {
+		// beyond the end of the file: fillBuffer has reported io.EOF
+		return 0, err
+	}
 	n = copy(p, f.buf[int(off):])
 	return
 }
